@@ -35,6 +35,12 @@ func init() {
 	c12 := cli("each run serves a seeded tree through the real handlers of ServerCommand over the simulated wire and executes 2-6 read commands (view, view-raw, sum, diff and copy with a remote source; existing and missing files, patterns matching nothing, every archive selection, windows, clock advances between commands) twice at the same simulated instant, against the directory and against the URL; text output, outcome class and (copy) resulting destination bytes must be identical. In a separate share of runs one response is damaged on the wire (truncated, closed, error status, garbage): the command must fail or be unaffected, and the next fault-free request must give the local answer. Non-trivial: a command pair involving at least one HTTP request was compared; distinct = distinct case hash")
 	c12.technique = "deterministic simulation: real net/http client and real server handlers over an in-memory pipe inside a synctest bubble, paired local/remote execution at one simulated instant, wire faults"
 	props["C12"] = c12
+	c17 := cli("each run is one of three workloads under the seeded scheduler with statement-level preemption: K=2-6 actors fetching arbitrary archives/windows on one shared handle (every result compared with the same fetch executed alone); sum over 2-12 files with its errgroup workers interleaved (output compared with the unpreempted run); K=2-6 clients issuing view / view-raw / sum / diff requests in parallel against the server with handler goroutines interleaved (every output compared with the same command run alone). In addition the same workloads run free-running under the race detector (runtime monitoring, the interleaving is not decided by the seed). Non-trivial: a run in which preemption actually interleaved the actors; distinct = distinct case hash; distinct interleavings = distinct context-switch signatures")
+	c17.race = true
+	c17.quick = tierCfg{runs: 2000, budget: 45}
+	c17.thorough = tierCfg{runs: 200000, budget: 1200}
+	c17.technique = "deterministic simulation: seeded scheduler interleaving fetches on a shared handle, sum's workers and HTTP handler goroutines at statement granularity, results compared with sequential execution; plus a free-running -race pass (runtime monitoring) for race freedom itself"
+	props["C17"] = c17
 	c13 := lib("each run is 2-5 actors (writers doing read-modify-write of a generation stamp over every slot of a multi-page archive, readers, abandoners, openers that fail after the descriptor was obtained) performing up to 14 sessions on one file under the seeded scheduler with statement-level preemption; invariants after every event, final counter, lock-lifetime probes and a porcupine linearizability check of the session history. Non-trivial: lock contention actually occurred (an opener parked in the lock hook while a handle was held) or a failed open was probed; distinct = distinct case hash; distinct interleavings = distinct context-switch signatures")
 	c13.quick = tierCfg{runs: 3000, budget: 45}
 	c13.thorough = tierCfg{runs: 300000, budget: 1200}
